@@ -67,7 +67,7 @@ StepOf(e) == CASE e.ev = "MRecvStartEngine" -> MRecvStartEngine
                [] OTHER -> FALSE
 
 L1Clauses == {"StartedOnlyWhenAll", "StopAtMostOnce", "StoppedOnlyWhenAll", "ExternalUntouched", "NoStall", "FaultReported",
-              "TeardownStopsAll", "ExternalAnswered"}
+              "TeardownStopsAll", "ExternalAnswered", "ShutdownMetricsStored"}
 
 Holds(c, e) ==
     CASE c = "StartedOnlyWhenAll" -> StartedOnlyWhenAll'
@@ -78,6 +78,7 @@ Holds(c, e) ==
       [] c = "FaultReported" -> FaultReported'
       [] c = "TeardownStopsAll" -> TeardownStopsAll'
       [] c = "ExternalAnswered" -> ExternalAnswered'
+      [] c = "ShutdownMetricsStored" -> ShutdownMetricsStored'
 
 StartTrace ==
     /\ tid < Len(Traces) /\ (IF tid = 0 THEN TRUE ELSE l > Len(Traces[tid].events))
